@@ -441,11 +441,55 @@ func C02(c *core.Ctx) {
 		}
 	}
 
+	// ---- R2.13 every Interest leaves through the outgoing Interest pipeline (same-face and
+	// hop-limit-0 guards, out-record, own PIT token): the forwarding thread hands a packet
+	// to a face only inside processOutgoingInterest and processOutgoingData
+	{
+		nSend, bad := 0, ""
+		for _, fn := range p.FuncsIn(core.ModPath + "/fw/fw") {
+			if strings.HasSuffix(p.File(fn.Pos()), "_test.go") {
+				continue
+			}
+			core.Instrs(fn, func(in ssa.Instruction) {
+				ci, ok := in.(ssa.CallInstruction)
+				if !ok || !ci.Common().IsInvoke() || ci.Common().Method.Name() != "SendPacket" {
+					return
+				}
+				nSend++
+				root := core.RootOf(fn)
+				if root == nil {
+					root = fn
+				}
+				n := core.BaseName(root)
+				if n != "processOutgoingInterest" && n != "processOutgoingData" {
+					bad = core.FuncName(fn) + " at " + c.Pos(in)
+				}
+			})
+		}
+		c.Decide(bad == "" && nSend >= 2, "R2.13", "packets-leave-through-the-outgoing-pipelines", "-", fmt.Sprintf("%d SendPacket sites, all inside the outgoing pipelines", nSend), "a packet is handed to a face outside the outgoing pipelines ("+bad+"): an Interest sent that way is not kept off its arrival face, can leave with hop limit 0 on a non-local face, gets no out-record (its nonce never becomes dead) and carries the downstream's PIT token instead of this forwarder's — Data echoing it is not matched")
+	}
+
 	// who may call the outgoing Interest pipeline
 	poi := c.Fn("R2.4", "fw/fw", "Thread", "processOutgoingInterest")
 	if poi != nil {
 		for _, ci := range p.Callers(poi) {
 			ok := core.FuncName(ci.Parent()) == "fw/fw.StrategyBase.SendInterest"
+			if !ok {
+				// the consumer-chosen next hop: the face id is FaceID() of
+				// dispatch.GetFace(*packet.NextHopFaceID) — the third way of the statement
+				// ("or the consumer-chosen next hop on faces where that is enabled"); the
+				// link service fills NextHopFaceID only when that is enabled (checked above)
+				_, a := core.CallArgs(ci.Common())
+				if len(a) == 4 {
+					if cl, isC := core.Strip(a[2]).(*ssa.Call); isC && cl.Call.IsInvoke() && cl.Call.Method.Name() == "FaceID" {
+						if g, isG := core.Strip(cl.Call.Value).(*ssa.Call); isG {
+							if id, okID := core.Callee(&g.Call); okID && id.Name == "GetFace" && len(g.Call.Args) == 1 && isDerefOfField(g.Call.Args[0], "NextHopFaceID") {
+								ok = true
+							}
+						}
+					}
+				}
+			}
 			c.Decide(ok, "R2.3", "processOutgoingInterest-caller:"+core.FuncName(ci.Parent()), c.Pos(ci), "called from StrategyBase.SendInterest", "processOutgoingInterest called from outside StrategyBase.SendInterest: bypasses the strategy/FIB next-hop selection")
 		}
 	}
